@@ -62,7 +62,8 @@ def merge_rule(prog, rep):
     field_writes = {k: v for k, v in m.state.vals.items() if "." in k or "[" in k}
     ok = set(field_writes) == {f"{L}.duration"} and field_writes[f"{L}.duration"] == want
     rep.check(ok, "MERGE", fi.short, "merged event", "only last.duration := max(last.dur, hb.ts - last.ts + hb.dur): start and data kept, end = later of the two ends", f"the merged event is written as {dict((k, repr(v)) for k, v in field_writes.items())}: merging must keep start and data and end at the later of the two ends", fi.loc(), expected=f"{L}.duration := {want!r}", found=str({k: repr(v) for k, v in field_writes.items()}))
-    rep.check(isinstance(m.ret, ast.Name) and m.ret.id == L, "MERGE", fi.short, "returned object", f"returns {L}", f"returns `{norm(m.ret)}`, not the first event", fi.loc())
+    alias = m.state.vals.get(L)
+    rep.check(isinstance(m.ret, ast.Name) and m.ret.id == L and (alias is None or alias == Form.atom(L)), "MERGE", fi.short, "returned object", f"returns {L}", f"returns `{norm(m.ret)}`" + (f" (which stands for {alias!r} on this path)" if alias is not None and alias != Form.atom(L) else "") + ", not the first event", fi.loc())
     # (c) other paths
     for s in others:
         fw = {k for k in s.state.vals if "." in k or "[" in k}
@@ -166,7 +167,7 @@ def fold_rule(prog, rep):
     no_t = [norm(s) for s in no if not (isinstance(s, ast.Expr) and isinstance(s.value, ast.Constant))]
     rep.check(yes_t == [f"{acc}[-1] = {mv}"], "FOLD", fi.short, "merged branch", f"{acc}[-1] = {mv}", f"on a successful merge the loop does `{'; '.join(yes_t)}` instead of replacing the last accumulated event", fi.loc(ifs[0]), expected=f"{acc}[-1] = {mv}", found="; ".join(yes_t))
     rep.check(no_t == [f"{acc}.append({hv})"], "FOLD", fi.short, "unmerged branch", f"{acc}.append({hv})", f"when the merge fails the loop does `{'; '.join(no_t)}` instead of appending the heartbeat", fi.loc(ifs[0]), expected=f"{acc}.append({hv})", found="; ".join(no_t))
-    post = [s for s in fi.node.body[next(i_ for i_, s_ in enumerate(fi.node.body) if s_ is lp) + 1 :] if not isinstance(s, ast.Return)]
+    post = [s for s in fi.node.body[next(i_ for i_, s_ in enumerate(fi.node.body) if s_ is lp) + 1 :] if not isinstance(s, ast.Return) and not (isinstance(s, ast.Expr) and isinstance(s.value, ast.Call) and norm(s.value.func).split(".")[0] in ("logger", "logging") and not any(isinstance(x, ast.Call) and x is not s.value and not (isinstance(x.func, ast.Name) and x.func.id in ("len", "str", "repr")) for x in ast.walk(s.value)))]
     rep.check(not post, "FOLD", fi.short, "after the loop", "nothing between loop and return", f"statements after the fold touch the result: {[norm(s)[:40] for s in post]}", fi.loc())
 
 
@@ -194,6 +195,7 @@ def check(prog, rep):
 
 H = "aw_transform/heartbeats.py"
 VARIANTS = [
+    ("B arguments swapped when the heartbeat starts first", "aw_transform/heartbeats.py", "    if last_event.data == heartbeat.data:\n", "    if heartbeat.timestamp < last_event.timestamp:\n        last_event, heartbeat = heartbeat, last_event\n    if last_event.data == heartbeat.data:\n", "MERGE"),
     ("B Event.duration setter truncates to whole milliseconds through a float product", "aw_core/models.py", "        if isinstance(duration, timedelta):\n            self[\"duration\"] = duration", "        if isinstance(duration, timedelta):\n            self[\"duration\"] = timedelta(milliseconds=int(duration.total_seconds() * 1000))", "DURATION"),
     ("B reduce folds a sorted copy of the input", H, "    reduced = []\n    if events:", "    events = sorted(events, key=lambda e: e.timestamp)\n    reduced = []\n    if events:", "FOLD"),
     ("OK reduce folds a plain copy of the input", H, "    reduced = []\n    if events:", "    events = list(events)\n    reduced = []\n    if events:", "ok"),
